@@ -808,11 +808,35 @@ func (ts *TermStore) FCmp(op Op, a, b *Term) *Term {
 func (ts *TermStore) FCmpTheory(op Op, a, b *Term) *Term { return ts.mk(op, 0, a, b, nil, 0, 0, "") }
 func (ts *TermStore) FIsNaNTheory(a *Term) *Term         { return ts.mk(OFIsNaN, 0, a, nil, nil, 0, 0, "") }
 
+// F32to64: exact widening of a float32 bit pattern to the float64 bit pattern, in bit-vector arithmetic
+// (normal numbers: re-biased exponent; subnormals: normalised through an ite chain over the leading bit;
+// infinities/NaNs: all-ones exponent, payload shifted, quiet bit set for NaNs as the hardware does).
 func (ts *TermStore) F32to64(a *Term) *Term {
 	if a.op == OConst {
 		return ts.Const(64, math.Float64bits(float64(math.Float32frombits(uint32(a.k)))))
 	}
-	return ts.mk(OF32to64, 64, a, nil, nil, 0, 0, "")
+	sign := ts.Zext(ts.Extract(a, 31, 31), 64)
+	exp := ts.Zext(ts.Extract(a, 30, 23), 64)
+	man := ts.Zext(ts.Extract(a, 22, 0), 64)
+	c := func(v uint64) *Term { return ts.Const(64, v) }
+	shl := func(x *Term, n uint64) *Term { return ts.Bin(OShl, x, c(n)) }
+	pack := func(e, m *Term) *Term {
+		return ts.Bin(OBvOr, shl(sign, 63), ts.Bin(OBvOr, shl(e, 52), m))
+	}
+	normal := pack(ts.Bin(OAdd, exp, c(896)), shl(man, 29))
+	isNaN := ts.Not(ts.Eq(man, c(0)))
+	infnan := pack(c(0x7ff), ts.Bin(OBvOr, shl(man, 29), ts.Ite(isNaN, c(1<<51), c(0))))
+	zero := shl(sign, 63)
+	// subnormal: value = man * 2^-149, highest set bit h in 0..22
+	sub := zero
+	for h := 0; h <= 22; h++ {
+		bit := ts.Eq(ts.Extract(a, h, h), ts.Const(1, 1))
+		m := ts.Bin(OBvAnd, shl(man, uint64(23-h)), c(0x7fffff))
+		sub = ts.Ite(bit, pack(c(uint64(h+874)), shl(m, 29)), sub)
+	}
+	expZero := ts.Eq(exp, c(0))
+	expOnes := ts.Eq(exp, c(255))
+	return ts.Ite(expOnes, infnan, ts.Ite(expZero, sub, normal))
 }
 
 // ---------- evaluation under a model ----------
